@@ -110,16 +110,24 @@ CtorNO(k, n, e, ck) == SizeOK(n) /\ Do("CtorNO", k, [n |-> n, e |-> e, ck |-> ck
 CtorIL(k, es) == ~IsOpt /\ IsVec /\ Do("CtorIL", k, [es |-> es], es, Void)
 CtorCopy(k)   == Do("CtorCopy", k, NoArg, obj[Other(k)], Void)
 CopyAssign(k) == Do("CopyAssign", k, NoArg, obj[Other(k)], Void)
-(* Move construction / assignment from the other object.  The moved-from     *)
-(* state is unspecified: the harness destroys the source immediately and     *)
-(* default-constructs it again, which is part of this action.                *)
-DoMove(op, k) ==
+(* Move construction / assignment from the other object.  The target holds   *)
+(* what the source held.  The moved-from object must stay a valid container   *)
+(* of its type (for the array flavours: of its extent), but which one is not  *)
+(* specified: `left` is whatever sequence it is observed to hold afterwards   *)
+(* (the projection comparison then decides whether all its observers agree    *)
+(* with `left`, i.e. whether its two storages are still in lockstep).         *)
+(* re = 1: the harness destroys the source immediately and default-constructs *)
+(* it again, which is then part of this action.                               *)
+DoMove(op, k, re, left) ==
+    /\ re \in {0, 1}
+    /\ re = 1 => left = Fill(N0, Dflt)
+    /\ ~IsVec => Len(left) = cfg.n
     /\ pre'  = obj
-    /\ obj'  = [j \in {1, 2} |-> IF j = k THEN obj[Other(k)] ELSE Fill(N0, Dflt)]
+    /\ obj'  = IF k = 1 THEN <<obj[2], left>> ELSE <<left, obj[1]>>
     /\ cfg'  = cfg
-    /\ last' = [op |-> op, k |-> k, a |-> NoArg, res |-> Void]
-CtorMove(k)   == DoMove("CtorMove", k)
-MoveAssign(k) == DoMove("MoveAssign", k)
+    /\ last' = [op |-> op, k |-> k, a |-> [re |-> re], res |-> Void]
+CtorMove(k, re, left)   == DoMove("CtorMove", k, re, left)
+MoveAssign(k, re, left) == DoMove("MoveAssign", k, re, left)
 
 (* resize: vectors only.  Existing elements are preserved, new ones are      *)
 (* missing / zero (Resize), the given value (ResizeV) or the given pair.     *)
@@ -159,16 +167,30 @@ Read(k, path, nav, i) ==
 (*       "scalar" ref = e[1]                                                *)
 (*       "pair"   ref = xoptional<T,bool>(e[1], e[2]) / ref = xcomplex<T>(e[1], e[2]) *)
 (*       "from"   ref = value_type(c[j])    (e is ignored)                  *)
-WriteKinds == {"a", "b", "scalar", "pair", "from"}
+(*       "addeq"  ref += e[1]   "muleq"  ref *= e[1]   (plain scalar operand) *)
+(*       "addpair" ref += xoptional<T,bool>(e[1], e[2]) / ref += xcomplex<T>(e[1], e[2]) *)
+(* The compound forms follow xoptional (a missing target or operand makes the *)
+(* result missing and leaves the stored value alone) and complex arithmetic   *)
+(* with a real scalar; what C11 adds is that they land in pair i and nowhere else. *)
+WriteKinds == {"a", "b", "scalar", "pair", "from", "addeq", "muleq", "addpair"}
+Compound(old, wk, e) ==
+    IF IsOpt
+      THEN CASE wk = "addeq"   -> IF old[2] = 1 THEN <<old[1] + e[1], 1>> ELSE old
+             [] wk = "muleq"   -> IF old[2] = 1 THEN <<old[1] * e[1], 1>> ELSE old
+             [] wk = "addpair" -> IF old[2] = 1 /\ e[2] = 1 THEN <<old[1] + e[1], 1>> ELSE <<old[1], 0>>
+      ELSE CASE wk = "addeq"   -> <<old[1] + e[1], old[2]>>
+             [] wk = "muleq"   -> <<old[1] * e[1], old[2] * e[1]>>
+             [] wk = "addpair" -> <<old[1] + e[1], old[2] + e[2]>>
 Written(old, wk, e, src) ==
     CASE wk = "a"      -> <<e[1], old[2]>>
       [] wk = "b"      -> <<old[1], e[2]>>
       [] wk = "scalar" -> OfScalar(e[1])
       [] wk = "pair"   -> e
       [] wk = "from"   -> src
+      [] wk \in {"addeq", "muleq", "addpair"} -> Compound(old, wk, e)
 Write(k, path, nav, i, wk, e, j) ==
     /\ path \in WritePaths /\ wk \in WriteKinds
-    /\ wk \in {"pair", "from"} => HasAssign
+    /\ wk \in {"pair", "from", "addpair"} => HasAssign
     /\ PathOK(k, path, nav, i)
     /\ j < Len(obj[k])
     /\ Do("Write", k, [path |-> path, nav |-> nav, i |-> i, wk |-> wk, e |-> e, j |-> j],
@@ -180,6 +202,22 @@ WriteUnder(k, which, i, x) ==
     /\ which \in {"a", "b"} /\ i < Len(obj[k])
     /\ Do("WriteUnder", k, [which |-> which, i |-> i, x |-> x],
           SetAt(obj[k], i, IF which = "a" THEN <<x, obj[k][i + 1][2]>> ELSE <<obj[k][i + 1][1], x>>), Void)
+
+(* proxy.swap(proxy) on elements i # j of one optional container (xoptional::swap on the two   *)
+(* reference closures).  The property does not name swap and xoptional's own swap is outside  *)
+(* C11 (it is known to lose a flag when the flags are bit references); what C11 demands of    *)
+(* any write through proxies is that it lands in the pairs it was given and nowhere else:     *)
+(* ni, nj are whatever pairs i and j hold afterwards.                                         *)
+ProxySwap(k, i, j, ni, nj) ==
+    /\ IsOpt /\ i # j /\ i < Len(obj[k]) /\ j < Len(obj[k])
+    /\ Do("ProxySwap", k, [i |-> i, j |-> j], SetAt(SetAt(obj[k], i, ni), j, nj), Void)
+
+(* max_size() is at least size() (values >= 2^30 are logged as 2^30) *)
+MaxSize(k, m) == m >= Len(obj[k]) /\ Obs("MaxSize", k, NoArg, Ok(<<m>>))
+
+(* <, <=, >, >= of xoptional_sequence: outside the property (only == and != are inside); the  *)
+(* call must leave both objects alone, its four answers are recorded and not judged here.     *)
+Rel(k, r) == IsOpt /\ Len(r) = 4 /\ (\A i \in 1..4 : r[i] \in {0, 1}) /\ Obs("Rel", k, NoArg, Ok(r))
 
 (* std::move(copy of c).value() etc.: a copy of the underlying container (the harness calls the rvalue accessor on a copy of c) *)
 Extract(k, which) == which \in {"a", "b"} /\
@@ -219,7 +257,10 @@ NextT(k) ==
     \/ C("ctor") /\ \E n \in Sizes, v \in (IF IsOpt THEN Vals \X {1} ELSE Elems) : CtorNV(k, n, v)
     \/ C("ctor") /\ \E n \in Sizes, e \in Elems, ck \in CKinds : CtorNO(k, n, e, ck)
     \/ C("il")   /\ \E es \in ILArgs : Len(es) <= MaxLen /\ CtorIL(k, es)
-    \/ C("pair") /\ (CtorCopy(k) \/ CopyAssign(k) \/ CtorMove(k) \/ MoveAssign(k))
+    \/ C("pair") /\ (CtorCopy(k) \/ CopyAssign(k))
+    \/ C("pair") /\ \E re \in {0, 1}, left \in {Fill(N0, Dflt), obj[Other(k)]} : CtorMove(k, re, left) \/ MoveAssign(k, re, left)
+    \/ C("misc") /\ (MaxSize(k, MaxLen) \/ Rel(k, <<0, 1, 0, 1>>))
+    \/ C("misc") /\ \E i \in Idx(k), j \in Idx(k) : ProxySwap(k, i, j, obj[k][j + 1], obj[k][i + 1])
     \/ C("size") /\ \E n \in Sizes : Resize(k, n)
     \/ C("size") /\ \E n \in Sizes, v \in (IF IsOpt THEN Vals \X {1} ELSE Elems) : ResizeV(k, n, v)
     \/ C("size") /\ \E n \in Sizes, e \in Elems, ck \in CKinds : ResizeO(k, n, e, ck)
@@ -229,8 +270,9 @@ NextT(k) ==
            \E nav \in NavsOf(path) :
                /\ (wk = "from" => e = <<0, 0>>)
                /\ (wk # "from" => j = 0)
-               /\ (wk \in {"a", "scalar"} => e[2] = 0)
+               /\ (wk \in {"a", "scalar", "addeq", "muleq"} => e[2] = 0)
                /\ (wk = "b" => e[1] = 0)
+               /\ (wk \in {"addeq", "muleq", "addpair"} => Compound(obj[k][i + 1], wk, e) \in Elems)   \* (model checker: stay inside Vals)
                /\ Write(k, path, nav, i, wk, e, j)
     \/ C("under") /\ \E which \in {"a", "b"}, i \in Idx(k), x \in Vals :
            /\ (which = "b" => x \in BDom)
@@ -247,7 +289,7 @@ Next == (\E k \in Targets : NextT(k)) \/ (\E k \in {1, 2} \ Targets : NextO(k))
 (* constraint writes each transition (pre-state, call) as one JSON line on TLC's output.    *)
 (* Calls that do not involve the other object are written once (other object as default-    *)
 (* constructed), copy/move calls for every content the other object is given.               *)
-PairOps == {"CtorCopy", "CopyAssign", "CtorMove", "MoveAssign"}
+PairOps == {"CtorCopy", "CopyAssign", "CtorMove", "MoveAssign", "Rel"}
 Emit == (last'.op \in EmitOps /\ (last'.op \in PairOps \/ pre'[2] = Fill(N0, Dflt))) =>
             PrintT("@E@" \o ToJson([c |-> cfg, p |-> pre', l |-> [op |-> last'.op, k |-> last'.k, a |-> last'.a]]))
 
@@ -269,7 +311,7 @@ Lockstep == \A k \in {1, 2} : LET p == Proj(k) IN
     /\ p.nA = p.size /\ p.nB = p.size
     /\ \A i \in 1..p.size : p.idx[i] = <<p.A[i], p.B[i]>> /\ (HasFwd => p.fwd[i] = p.idx[i]) /\ p.rev[p.size + 1 - i] = p.idx[i]
 
-ObserverOps == {"At", "Read", "Extract", "IterRel", "Feature"}
+ObserverOps == {"At", "Read", "Extract", "IterRel", "Feature", "MaxSize", "Rel"}
 ObserversPure == [][last'.op \in ObserverOps => obj' = obj]_vars
 FailedChangesNothing == [][last'.res.exc # "none" => obj' = obj]_vars
 (* resize keeps the common prefix, creates exactly the requested new elements and never touches the other object *)
@@ -283,6 +325,13 @@ ResizeLaw == [][last'.op \in ResizeOps =>
                                           [] last'.op = "ResizeV" -> (IF IsOpt THEN <<last'.a.v[1], 1>> ELSE last'.a.v)
                                           [] OTHER -> last'.a.e)
                     /\ obj'[Other(k)] = obj[Other(k)]]_vars
+(* a move leaves the target with exactly what the source held *)
+MoveLaw == [][last'.op \in {"CtorMove", "MoveAssign"} => obj'[last'.k] = obj[Other(last'.k)]]_vars
+(* a proxy swap touches at most the two elements it was given *)
+SwapLaw == [][last'.op = "ProxySwap" =>
+                  LET k == last'.k IN
+                    /\ Len(obj'[k]) = Len(obj[k]) /\ obj'[Other(k)] = obj[Other(k)]
+                    /\ \A m \in 1..Len(obj[k]) : (m # last'.a.i + 1 /\ m # last'.a.j + 1) => obj'[k][m] = obj[k][m]]_vars
 (* a write changes exactly one element of exactly one object *)
 WriteLaw == [][last'.op \in {"Write", "WriteUnder"} =>
                   LET k == last'.k  i == last'.a.i IN
